@@ -22,7 +22,7 @@ def main():
         assert r.returncode == 0, r.stderr
         for p in props:
             env = dict(os.environ, VERIF_REPO=wt, VERIF_SEED=os.environ.get("VERIF_SEED", "0"))
-            r = subprocess.run(["/verif/check", p, "--tier", os.environ.get("VERIF_TIER", "quick")], env=env, capture_output=True, text=True)
+            r = subprocess.run([os.path.join(os.path.dirname(os.path.dirname(os.path.abspath(__file__))), "check"), p, "--tier", os.environ.get("VERIF_TIER", "quick")], env=env, capture_output=True, text=True)
             lines = [l for l in (r.stdout + r.stderr).splitlines() if l.startswith(("VIOLATION", "  detail", "MACHINERY", "DIVERGENCE", "KNOWN"))]
             status = "DETECTED" if r.returncode == 1 else ("MISSED" if r.returncode == 0 else "MACHINERY")
             print(f"{os.path.basename(d)} check={p} -> {status} (rc={r.returncode})")
